@@ -12,6 +12,32 @@ TOL = Fraction(1, 10**9)
 TOL32 = Fraction(1, 10**6)  # decimal scores: prediction_encoding is float32, the sum of the scores is rounded in float32
 
 
+def _indep_iou(g1, g2):
+    """area IoU of two area geometries (box / polygon with holes / multipolygon), built with shapely directly from the case's
+    coordinates; None when one of them is not an area geometry (those are buffered by the library: not recomputed here)"""
+    import shapely
+    from shapely.geometry import MultiPolygon, Polygon, box
+
+    def shape(g):
+        if g is None:
+            return None
+        c = g["coordinates"]
+        f = lambda ring: [(float(p[0]), float(p[1])) for p in ring]
+        if g["type"] == "BoundingBox":
+            return box(float(c[0]), float(c[1]), float(c[2]), float(c[3]))
+        if g["type"] == "Polygon":
+            return Polygon(f(c[0]), [f(r) for r in c[1:]])
+        if g["type"] == "MultiPolygon":
+            return MultiPolygon([Polygon(f(p[0]), [f(r) for r in p[1:]]) for p in c])
+        return None
+
+    a, b = shape(g1), shape(g2)
+    if a is None or b is None or not a.is_valid or not b.is_valid:
+        return None
+    u = a.union(b).area
+    return 0.0 if u == 0 else a.intersection(b).area / u
+
+
 def _tol(c):
     dec = any(s.denominator not in (1, 2, 4, 8, 16) for cl in c["clips"].values() for p in cl["preds"] for s in p["scores"])
     return TOL32 if dec else TOL
@@ -77,7 +103,17 @@ class C08(Prop):
                  "tag": rng.choice([None, "oov"] + list(range(nv)) * 2)} for _ in range(na)]
         preds = [{"geom": None if rng.random() < 0.15 else self._event_geom(rng, anchor),
                   "scores": self._scores(rng, nv), "oov_score": rng.choice([None, Fraction(1, 2)])} for _ in range(npred)]
-        if rng.random() < 0.2 and na + npred >= 3:
+        if rng.random() < 0.15 and na >= 1 and npred >= 1:
+            # an annotated frame (polygon with a hole) and a prediction inside the hole: they share no area, hence no pair;
+            # a second prediction lies on the frame itself
+            frame = {"type": "Polygon", "coordinates": [
+                [[Fraction(0), Fraction(1000)], [Fraction(10), Fraction(1000)], [Fraction(10), Fraction(9000)], [Fraction(0), Fraction(9000)], [Fraction(0), Fraction(1000)]],
+                [[Fraction(2), Fraction(3000)], [Fraction(8), Fraction(3000)], [Fraction(8), Fraction(7000)], [Fraction(2), Fraction(7000)], [Fraction(2), Fraction(3000)]]]}
+            anns[0]["geom"] = frame
+            preds[0]["geom"] = {"type": "BoundingBox", "coordinates": [Fraction(4), Fraction(4500), Fraction(6), Fraction(5500)]}
+            if npred >= 2:
+                preds[1]["geom"] = {"type": "BoundingBox", "coordinates": [Fraction(0), Fraction(1000), Fraction(1), Fraction(2000)]}
+        elif rng.random() < 0.2 and na + npred >= 3:
             # a chain of overlaps P ~ A ~ P ~ A ...: neighbours overlap, events two apart do not; the optimal assignment then
             # has leftovers that each overlap something but not each other
             order = ["p"] * npred + ["a"] * na
@@ -267,6 +303,13 @@ class C08(Prop):
                         fail("paired-without-geometry", f"clip {ce['clip']}: pair ({s},{t}) involves an event without geometry")
                         continue
                     true_aff = inp["M"][fp.index(s)][fa.index(t)]
+                    # independent of the library's own conversion / affinity code: area geometries built here from the case
+                    ind = _indep_iou(cl["preds"][s]["geom"], cl["anns"][t]["geom"])
+                    if ind is not None:
+                        if ind == 0:
+                            fail("paired-without-overlap", f"clip {ce['clip']}: prediction {s} paired with annotation {t} although they share no area (independent computation)")
+                        elif abs(float(aff) - ind) > 1e-9:
+                            fail("pair-affinity", f"clip {ce['clip']}: pair ({s},{t}) reports affinity {float(aff)} but the area IoU computed independently is {ind}")
                     if not true_aff > 0:
                         fail("paired-without-overlap", f"clip {ce['clip']}: prediction {s} paired with annotation {t} although their affinity is {float(true_aff)}")
                     if aff != true_aff:
